@@ -37,7 +37,7 @@ claim("C02", SIM + "; oracle: provenance of every returned plaintext and of ever
       "trusted: harness bookkeeping of wire provenance, refotr for key derivation; tolerant reading of the unauthenticated remainder (bytes after the MAC) is accepted either way",
       "DESIGN.md section 5 C02")
 
-claim("C05", SIM + "; oracle: exactly-once accounting on unique texts, no-effect rule for re-deliveries of accepted messages",
+claim("C05", SIM + " (a fifth of the runs with the reference implementation as a foreign peer that sends what otr3 never sends: text with the ignore-unreadable flag, text with TLVs); oracle: exactly-once accounting on unique texts, no-effect rule for re-deliveries of accepted messages",
       "Duplicating/reordering network with an archive of all wire messages and fragments; PRNG-chosen duplication, out-of-order delivery and replay (at once, after more traffic and rotations, after End + new AKE), including TLV-only messages. "
       "Each text is returned at most once per receiver; a re-delivered data message that was accepted before yields no plaintext, no SMP/security/key event, no data reply.",
       "trusted: harness bookkeeping; uniqueness of generated texts",
@@ -49,10 +49,10 @@ claim("C06", SIM + "; oracle: twin-run behavioural equality (same continuation w
       "trusted: harness; the rejection criterion is the statement's own (no plaintext, nothing to send but an optional OTR error); a well-formed message from another valid peer instance that binds an unbound conversation is not a rejection case (C15)",
       "DESIGN.md section 5 C06")
 
-claim("C09", SIM + "; oracle: omniscient key history of the shadow reference: owner pair and acceptance window of every disclosed key; completeness after flush",
+claim("C09", SIM + " (incl. single failures of the randomness source at PRNG-chosen reads, End + new session on the same conversations, a lying authenticated peer); oracles: omniscient key history of the shadow reference (owner pair and acceptance window of every disclosed key; completeness after flush) and, independent of the shadow, a forgery probe: every disclosed key is used at once to forge data messages to the discloser for all key-id pairs around those in use - none may be accepted",
       "In PRNG-generated interleavings (ping-pong, bursts, one-directional streams, refresh AKE) every 20-byte key in an old-MAC-keys field is attributed to a key pair of the discloser (all pairs of all sessions are known because the harness owns the randomness) and must lie outside the discloser's acceptance window at that moment; "
       "after a flush every receiving MAC key that verified a message and whose pair is retired must have appeared in some old-MAC-keys field.",
-      "trusted: refotr key schedule and ratchet model; disclosure at End is not demanded by the statement",
+      "trusted: refotr key schedule and ratchet model; keys still live at the very end of a run are not demanded",
       "DESIGN.md section 5 C09")
 
 claim("C01", SIM + "; oracle: first-principles re-validation of every accepted exchange from the party's own exponent and the messages delivered to it; provenance of the peer DH value; stability; agreement + probes",
@@ -61,19 +61,19 @@ claim("C01", SIM + "; oracle: first-principles re-validation of every accepted e
       "trusted: refotr key schedule/X-block helpers and Go stdlib DSA; cryptographic strength is not tested",
       "DESIGN.md section 5 C01")
 
-claim("C03", SIM + "; oracle: wire monitor over every output of every API call (raw, base64-decoded, reassembled fragments) + wrong-key decryption probes",
+claim("C03", SIM + " (incl. single failures of the randomness source in a third of the runs, user texts that look like OTR protocol); oracle: wire monitor over every output of every API call (raw, base64-decoded, reassembled fragments) against a strict lifecycle model (leaving the encrypted state without End or the peer's disconnect keeps encryption due) + wrong-key decryption and key-stream reuse probes",
       "PRNG-generated lifecycle histories (plaintext, AKE in progress, encrypted, finished after peer End, own End, re-AKE, injected errors, crash/restart, SMP, extra key, fragment sizes) under PRNG-chosen policy sets for both parties. Every message any call returns is searched for every text the party was ever given; a readable occurrence is legitimate only for the text of the current Send in plaintext state without require-encryption. "
       "Send in finished state must emit nothing; under require-encryption only a query. Ciphertexts must not decrypt to the text under the zero key, the MAC key, the receiving key or a previous session's key.",
       "trusted: harness lifecycle tracking from observable events, refotr key derivation for the wrong-key probes",
       "DESIGN.md section 5 C03")
 
-claim("C11", SIM + "; oracle: outcome table per SMP run (success iff secrets byte-equal and same session); relay world must never succeed",
+claim("C11", SIM + " (incl. restarts whose randomness read fails, questions that cannot be encoded, long secrets differing late); oracle: outcome table per SMP run (success iff secrets byte-equal and same session); relay world must never succeed; a start that reports success must get the peer asked",
       "Two honest real parties run SMP repeatedly with PRNG-chosen secrets (equal, one bit apart, empty, 1 byte, 4 KiB, binary), questions, initiator, answer delay, and ordinary traffic/heartbeats/rotations interleaved between SMP steps; in a quarter of the runs a man in the middle (reference implementation, two separately keyed sessions) forwards the SMP TLVs unchanged. "
       "Equal secrets in one session: both report success; different: nobody reports success, responder reports failure, initiator failure or abort; relay: never success.",
       "trusted: harness run bookkeeping; refotr as the relay's protocol engine",
       "DESIGN.md section 5 C11")
 
-claim("C12", SIM + "; oracle: no success event (the lying peer never knows the secret), no panic/hang, recovery run with equal secrets succeeds",
+claim("C12", SIM + "; oracle: no success event (the lying peer never knows the secret; in insider runs she does, and no run containing a deviant-but-verifying message - surplus values, exponents plus a multiple of q, fixed-point proofs for degenerate elements - may succeed), no panic/hang, recovery run with equal secrets succeeds under three set-ups (who aborts, who starts)",
       "A real victim is in an authenticated encrypted session with a lying peer built on the reference implementation (all SMP exponents exported, verification switched off on its side). The peer sends honest-but-wrong-secret messages, messages with any MPI replaced by boundary values (proofs stale), messages built from forced exponents 0/1/q/q-1/q+1 (proofs recomputed), wrong counts / truncations / missing question terminator, out-of-sequence and duplicated messages and aborts, while the victim's user calls start/answer/abort at arbitrary points; a follow-up driver completes multi-step attacks. "
       "Any success event or panic on the victim is a violation; afterwards an honest run with equal secrets must succeed on both sides.",
       "trusted: refotr SMP engine (its honest path interoperates with otr3 in both roles, C10/C11); sampling of the (message, field, value) table, reported as probes",
@@ -102,7 +102,7 @@ claim("C16", "deterministic simulation of one negotiation per configuration; the
       "trusted: the negotiation model (30 lines, written from the statement); thorough = exhaustive over the stated product, quick = sample",
       "DESIGN.md section 5 C16")
 
-claim("C18", SIM + "; oracle: executable lifecycle model per party (state, queue, last message, error-reported flag) + transmission accounting on the decrypted wire",
+claim("C18", SIM + " (incl. single failures of the randomness source in a quarter of the runs); oracle: executable lifecycle model per party (state, queue, per-session last message, error-reported flag) + transmission accounting on the decrypted wire + error reply to data messages outside a session",
       "PRNG-generated lifecycle histories on both sides (start/complete/abandon AKE, Send in every state, End, peer End, genuine and injected error messages, refresh, crash/restart, loss, ticks) under PRNG-chosen policy sets. After every call: the security events must be exactly those of the observed IsEncrypted/SSID transition; entering the encrypted state only by the final AKE message, leaving it only by End() or the peer's disconnect; Send's outcome class must be the model's (clear / queued+query / data / refused); every text is transmitted at most once, queued texts exactly once, in order, in the call that starts the session, and a second transmission is allowed only for the most recent message after an error report, once, marked as resent.",
       "trusted: lifecycle model written from the statement; shadow reference for decrypting emitted data messages (undecodable ones are counted and their history exempted)",
       "DESIGN.md section 5 C18")
@@ -113,7 +113,7 @@ claim("C19", SIM + "; oracle: bytes reachable from the conversation (object-grap
       "trusted: the walker (reflect+unsafe from outside the package); slack calibrated on the repaired tree (observed jitter < 600 bytes)",
       "DESIGN.md section 5 C19")
 
-claim("C20", SIM + " of a cooperative goroutine scheduler (one goroutine per conversation pair, parked before every API call, PRNG picks who proceeds) + free-running parallel execution under the Go race detector; oracle: transcript equality with the solo run replaying the same clock readings, no mutation of memory already handed to a caller, zero race reports",
+claim("C20", SIM + " of a cooperative goroutine scheduler (one goroutine per conversation pair, parked before every API call, PRNG picks who proceeds) + free-running parallel execution under the Go race detector with no harness synchronisation + a bare-conversation hammer (5..8 goroutines driving the same life cycle at the same moment), conversations of an account sharing one key object; oracle: transcript equality with the solo run replaying the same clock readings, no mutation of memory already handed to a caller, zero race reports",
       "3..6 independent conversation pairs (handshake, traffic with rotations, errors, SMP, fragmentation, End/restart). Mode 0: each pair on its own goroutine, a seeded scheduler interleaves their API calls and clock ticks (replayable, shrinkable); every pair's full transcript must equal its solo run and no message returned earlier may change while another pair runs. "
       "Mode 1: the same pairs free-running on parallel goroutines in a -race build; any race report kills the worker and is reported with the seed; transcripts are compared with the solo runs as well.",
       "trusted: Go race detector (can miss, cannot invent, a race); harness worlds share no mutable state; mode 1 schedules are not controlled, its findings are reported by seed without a minimised schedule",
